@@ -139,6 +139,15 @@ every recorded diagnostic must name main.asm and the line/column of the statemen
 			}
 		}
 		let off = text.len() + boff;
+		// separator text between the directive mark and the directive name: the statement still starts at the mark
+		let spaced;
+		let bad = if bad.starts_with('.') && boff == 0 && !bad[1..].contains(". ") && rng.chance(1, 3)
+		{
+			spaced = format!(".{}{}", *rng.pick(&[" ", "\t", "  ", "/* c */", " /* \u{e9}\u{20ac} */ ", "\r\n", "\n", "\n\n\t", "/*\n*/", " // c\n"]), &bad[1..]);
+			cx.report.hit("diagnostic position cases with separator text between `.` and the directive name");
+			spaced.as_str()
+		}
+		else {bad};
 		text.push_str(bad);
 		if active
 		{
